@@ -72,6 +72,11 @@ class Ctx:
         self.res = Result()
         self.g = gen.RefG(seed * 7919 + 17)
         self.r = self.g.r
+        if os.environ.get("VERIF_HINTS"):
+            try:
+                gen.set_hints(json.loads(os.environ["VERIF_HINTS"]))
+            except ValueError:
+                pass
 
     def close(self):
         self.drv.close()
